@@ -275,6 +275,13 @@ def run(tier, seed):
             src = ("local function run() do local c=runtime.callcontext(%s,function() %s end) emit('ctx',c.status) end emit('left-block') end "
                    "run() emit('returned') local t={} for i=1,100 do t[i]=i end emit('end')" % (inner, shape))
             gc_cases.append((inner, src))
+    # finalisers of a limited context run INSIDE it when it ends (by return or by error) and are stopped by its limit
+    heavy = "setmetatable({},{__gc=function() local n=0 for j=1,2000000 do n=n+j end emit('gc-of-killed-ran',n) end})"
+    for inner in ("{kill={cpu=3000}}", "{kill={cpu=3000,memory=1000000}}"):
+        for ending in ("return 1", "error('x')", "error({})", "local t=nil return t.x"):
+            src = ("local c=runtime.callcontext(%s,function() local v=%s v=nil %s end) emit('ctx',c.status) "
+                   "emit('used-within-limit', (c.used.cpu or 0) < 3000) collectgarbage() emit('end')" % (inner, heavy, ending))
+            gc_cases.append((inner, src))
     glines = ["g%d %s" % (k, hexs(src)) for k, (_, src) in enumerate(gc_cases)] + \
              ["G%d %s cpu=%d" % (k, hexs(src), 50000000) for k, (_, src) in enumerate(gc_cases)]
     gouts = [parse(l) for l in vlib.run_lines_resilient(gvh, ["lua"], glines, per_case_timeout=30)]
@@ -287,6 +294,8 @@ def run(tier, seed):
             ck.violation("finaliser/killed-context program crashed or hung", rep)
         elif ["ctx", "killed"] not in evs:
             ck.violation("explicit context %s with a non-terminating body did not end 'killed'" % inner, rep)
+        elif ["used-within-limit", "b0"] in evs:
+            ck.violation("explicit context %s: used.cpu is not below the kill limit after its finalisers ran" % inner, rep)
         elif any(e[0] == "gc-of-killed-ran" for e in evs):
             ck.violation("a __gc finaliser or pending __close handler of a killed context ran afterwards (the killed computation continues from its handler)", rep)
 
